@@ -266,6 +266,35 @@ func (p *Prog) geometricLoop(fn *ssa.Function, l *Loop) (loopClass, bool) {
 				}
 			}
 		}
+		// divisive, test on the running value itself: continue while x >= K (K >= 1), x <- x / k (k >= 2)
+		if phi, ok := bo.X.(*ssa.Phi); ok && l.Blocks[phi.Block()] {
+			if K, isC := constInt(bo.Y); isC && K >= 1 && (bo.Op == token.GEQ && exitsFalse || bo.Op == token.LSS && exitsTrue || bo.Op == token.GTR && exitsFalse && K >= 0) {
+				bt, isB := phi.Type().Underlying().(*types.Basic)
+				good := isB && bt.Info()&types.IsUnsigned != 0
+				n := 0
+				for i, e := range phi.Edges {
+					if !l.Blocks[phi.Block().Preds[i]] {
+						continue
+					}
+					n++
+					div, ok := e.(*ssa.BinOp)
+					if !ok || div.X != ssa.Value(phi) {
+						good = false
+						continue
+					}
+					k, isK := constInt(div.Y)
+					switch {
+					case div.Op == token.QUO && isK && k >= 2:
+					case div.Op == token.SHR && isK && k >= 1:
+					default:
+						good = false
+					}
+				}
+				if good && n > 0 {
+					return loopClass{"divisive", "const", "an unsigned value is divided by a constant >= 2 on every cycle and the loop is left once it drops below a positive constant"}, true
+				}
+			}
+		}
 		// divisive: exit when x == 0 where x = phi / k  or the phi itself
 		if k0, isC := constInt(bo.Y); isC && k0 == 0 && (bo.Op == token.EQL && exitsTrue || bo.Op == token.NEQ && exitsFalse || bo.Op == token.GTR && exitsFalse) {
 			v := bo.X
